@@ -60,6 +60,7 @@ class FakeSock:
         self.send_fault = None    # None | "reset" | "timeout" : applies to every send from now on
         self.recv_calls = 0
         self.consumed = 0
+        self.shutdown_fails = False   # peer reset: shutdown() raises ENOTCONN
 
     def queue(self, data):
         self.inbox.append(data)
@@ -122,6 +123,8 @@ class FakeSock:
 
     def shutdown(self, how):
         self.shutdowns += 1
+        if self.shutdown_fails:
+            raise OSError(errno.ENOTCONN, "transport endpoint is not connected")
 
     def close(self):
         self.closed += 1
